@@ -184,6 +184,11 @@ pub fn lex(lang: Lang, src: &str) -> Result<Vec<Tok>, LexError> {
                         'u' => {
                             // \u{XXXX} (Rust Debug / Swift / Kotlin) or \uXXXX
                             if i + 2 < cs.len() && cs[i + 2] == '{' {
+                                // the braced form is an escape in Swift and TypeScript only; Kotlin, Scala, Go and Python
+                                // have \uXXXX, and reject (or take literally) a brace after \u
+                                if !matches!(lang, Lang::Swift | Lang::TypeScript) {
+                                    return Err(LexError { msg: "`\\u{` is not a unicode escape of this language".into(), line: l0 });
+                                }
                                 let mut j = i + 3;
                                 let mut hex = String::new();
                                 while j < cs.len() && cs[j] != '}' {
